@@ -112,6 +112,8 @@ def q2_typecheck(f):
                 param.annotation in [list, str, int, float]
                 and param.default == param.empty
             ):
+                if i >= len(args):
+                    raise TypeError(f"Missing argument '{p}'")
                 _verify_variable_is_type(args[i], param.annotation)
 
         return f(*args, **kwargs)
